@@ -877,4 +877,226 @@ theorem recordCallNode_cons (v : Variant) (hv1 : v.atomicValue = true) (hv2 : v.
     · intro x hx
       simp only [view_addAll, view_add, hview2]
       exact hasValue_applyOps_mono _ _ _ (hasValue_applyOps_mono _ _ _ (hasValue_applyOp_mono _ _ _ (hm2.values _ (hhas1 x hx))))
+
+/-! ## sessions with pending rows (the two-commit `record_call_node`) -/
+
+
+/-- the rows pending in the session have their references resolved in what the session sees, and a pending
+Task value comes with its Task row -/
+def PendOK (s : Sess) : Prop :=
+  (∀ op ∈ s.pend, refsOk s.view op = true) ∧
+  (∀ r, RowOp.value r ∈ s.pend → r.kind = .task → s.view.tasks.contains r.hash = true)
+
+/-- like `OpOK Cons`, for a session that may keep rows pending -/
+def OpOKp (s s' : Sess) : Prop :=
+  Cons s'.db ∧ PendOK s' ∧ ∀ snap ∈ s'.log, snap ∈ s.log ∨ Cons snap.db
+
+theorem OpOKp.refl (s : Sess) (h : Cons s.db) (hp : PendOK s) : OpOKp s s := ⟨h, hp, fun _ hs => Or.inl hs⟩
+
+theorem OpOKp.trans {a b c : Sess} (h1 : OpOKp a b) (h2 : OpOKp b c) : OpOKp a c :=
+  ⟨h2.1, h2.2.1, fun snap hs => by
+    rcases h2.2.2 snap hs with h | h
+    · exact h1.2.2 snap h
+    · exact Or.inr h⟩
+
+theorem pendOK_nil (s : Sess) (hp : s.pend = []) : PendOK s := by
+  constructor <;> intro x hx <;> simp [hp] at hx
+
+theorem view_eq (s : Sess) : s.view = applyOps s.db s.pend := rfl
+
+/-- committing a session whose pending rows are fine -/
+theorem commit_cons (s : Sess) (h : Cons s.db) (hp : PendOK s) : OpOKp s s.commit := by
+  have hc : Cons s.view := cons_commit s.db s.pend h hp.1 hp.2
+  refine ⟨by rw [db_commit]; exact hc, pendOK_nil _ (pend_commit s), ?_⟩
+  intro snap hs
+  rcases log_commit s with hl | hl
+  · rw [hl] at hs; exact Or.inl hs
+  · rw [hl] at hs; simp only [List.mem_append, List.mem_singleton] at hs
+    rcases hs with hs | hs
+    · exact Or.inl hs
+    · right; subst hs; exact hc
+
+theorem addAll_pendOK (s : Sess) (ops : List RowOp) (hp : PendOK s)
+    (hr : ∀ op ∈ ops, refsOk (applyOps s.view ops) op = true)
+    (hv : ∀ r, RowOp.value r ∈ ops → r.kind = .task → (applyOps s.view ops).tasks.contains r.hash = true) :
+    PendOK (s.addAll ops) := by
+  have hm := mono_applyOps s.view ops
+  constructor
+  · intro op hop
+    simp only [Sess.addAll, List.mem_append] at hop
+    rw [view_addAll]
+    rcases hop with hop | hop
+    · exact refsOk_mono (hp.1 op hop) hm
+    · exact hr op hop
+  · intro r hr' hk
+    simp only [Sess.addAll, List.mem_append] at hr'
+    rw [view_addAll]
+    rcases hr' with h | h
+    · exact hm.tasks _ (hp.2 r h hk)
+    · exact hv r h hk
+
+theorem addAll_ok (s : Sess) (ops : List RowOp) (h : Cons s.db) (hp : PendOK s)
+    (hr : ∀ op ∈ ops, refsOk (applyOps s.view ops) op = true)
+    (hv : ∀ r, RowOp.value r ∈ ops → r.kind = .task → (applyOps s.view ops).tasks.contains r.hash = true) :
+    OpOKp s (s.addAll ops) :=
+  ⟨h, addAll_pendOK s ops hp hr hv, fun _ hs => Or.inl hs⟩
+
+/-- `record_value` (repaired) called while the caller has rows pending: its single commit makes them durable too -/
+theorem recordValue_consp (v : Variant) (hv : v.atomicValue = true) (x : ValueSpec) (s : Sess)
+    (h : Cons s.db) (hp : PendOK s) : OpOKp s (recordValue v x s) := by
+  unfold recordValue
+  split
+  · exact OpOKp.refl s h hp
+  · have hok := valueOps_ok s.view x
+    exact (addAll_ok s _ h hp hok.1 hok.2).trans (commit_cons _ h (addAll_pendOK s _ hp hok.1 hok.2))
+
+theorem recordValues_consp (v : Variant) (hv : v.atomicValue = true) (xs : List ValueSpec) (s : Sess)
+    (h : Cons s.db) (hp : PendOK s) : OpOKp s (recordValues v xs s) := by
+  induction xs generalizing s with
+  | nil => exact OpOKp.refl s h hp
+  | cons x rest ih =>
+    have h1 := recordValue_consp v hv x s h hp
+    exact h1.trans (ih _ h1.1 h1.2.1)
+
+theorem recordValue_monoView (v : Variant) (hv : v.atomicValue = true) (x : ValueSpec) (s : Sess) :
+    Mono s.view (recordValue v x s).view := recordValue_monoDb v hv x s
+
+/-- the loop of `_record_args` with the CallNode pending: every commit issued by a nested `record_value` leaves a
+consistent state, given the node is pending/recorded and upstream call nodes exist -/
+theorem recordArgs_consp (v : Variant) (hv : v.atomicValue = true) (c : H) (args : List ArgSpec) (s : Sess)
+    (h : Cons s.db) (hp : PendOK s) (hc : hasNode s.view c = true)
+    (hups : ∀ x ∈ args, ∀ u ∈ x.upstream, hasNode s.view u = true) :
+    OpOKp s (recordArgs v c args s) ∧ Mono s.view (recordArgs v c args s).view := by
+  induction args generalizing s with
+  | nil => exact ⟨OpOKp.refl s h hp, Mono.refl _⟩
+  | cons a rest ih =>
+    simp only [recordArgs]
+    have h1 := recordValue_consp v hv a.value s h hp
+    have hm1 := recordValue_monoView v hv a.value s
+    have hhas := recordValue_has v a.value s
+    generalize recordValue v a.value s = s1 at *
+    -- the Argument row and its ArgumentResult rows
+    have hops : ∀ op ∈ (RowOp.arg ⟨c, a.slot, a.value.row.hash⟩ :: a.upstream.map (fun u => RowOp.argRes ⟨c, a.slot, u⟩)),
+        refsOk (applyOps s1.view (RowOp.arg ⟨c, a.slot, a.value.row.hash⟩ :: a.upstream.map (fun u => RowOp.argRes ⟨c, a.slot, u⟩))) op = true := by
+      intro op hop
+      have hmT := mono_applyOps s1.view (RowOp.arg ⟨c, a.slot, a.value.row.hash⟩ :: a.upstream.map (fun u => RowOp.argRes ⟨c, a.slot, u⟩))
+      simp only [List.mem_cons, List.mem_map] at hop
+      rcases hop with hop | ⟨u, hu, hop⟩
+      · subst hop
+        simp only [refsOk, Bool.and_eq_true]
+        exact ⟨hmT.nodes _ (hm1.nodes _ hc), hmT.values _ hhas⟩
+      · subst hop
+        simp only [refsOk, Bool.and_eq_true]
+        exact ⟨hasArg_of_mem_ops _ _ ⟨c, a.slot, a.value.row.hash⟩ (by simp),
+          hmT.nodes _ (hm1.nodes _ (hups a (by simp) u hu))⟩
+    have hvals : ∀ r, RowOp.value r ∈ (RowOp.arg ⟨c, a.slot, a.value.row.hash⟩ :: a.upstream.map (fun u => RowOp.argRes ⟨c, a.slot, u⟩)) →
+        r.kind = .task → (applyOps s1.view (RowOp.arg ⟨c, a.slot, a.value.row.hash⟩ :: a.upstream.map (fun u => RowOp.argRes ⟨c, a.slot, u⟩))).tasks.contains r.hash = true := by
+      intro r hr; simp at hr
+    have heq : (s1.add (.arg ⟨c, a.slot, a.value.row.hash⟩)).addAll (a.upstream.map (fun u => RowOp.argRes ⟨c, a.slot, u⟩))
+        = s1.addAll (RowOp.arg ⟨c, a.slot, a.value.row.hash⟩ :: a.upstream.map (fun u => RowOp.argRes ⟨c, a.slot, u⟩)) := by
+      simp [Sess.add, Sess.addAll]
+    rw [heq]
+    have h2 := addAll_ok s1 _ h1.1 h1.2.1 hops hvals
+    have hm2 : Mono s1.view (s1.addAll (RowOp.arg ⟨c, a.slot, a.value.row.hash⟩ :: a.upstream.map (fun u => RowOp.argRes ⟨c, a.slot, u⟩))).view := by
+      rw [view_addAll]; exact mono_applyOps _ _
+    have h3 := ih (s1.addAll (RowOp.arg ⟨c, a.slot, a.value.row.hash⟩ :: a.upstream.map (fun u => RowOp.argRes ⟨c, a.slot, u⟩)))
+      h2.1 h2.2.1 (hm2.nodes _ (hm1.nodes _ hc))
+      (fun x hx u hu => hm2.nodes _ (hm1.nodes _ (hups x (by simp [hx]) u hu)))
+    exact ⟨(h1.trans h2).trans h3.1, (hm1.trans hm2).trans h3.2⟩
+
+/-- **`record_call_node` with the repaired `record_value`, two-commit or one-commit**: every durable state is
+referentially closed and has a Task row for every Task value. -/
+theorem recordCallNode_cons_any (v : Variant) (hv1 : v.atomicValue = true) (a : CallArgs) (s : Sess)
+    (hp : s.pend = []) (h : Cons s.db)
+    (htask : s.db.tasks.contains a.node.task = true) (hval : hasValue s.db a.node.value = true)
+    (hups : ∀ x ∈ a.args, ∀ u ∈ x.upstream, hasNode s.db u = true)
+    (hsub : ∀ t ∈ a.subtree, s.db.tasks.contains t = true) :
+    OpOK Cons s (recordCallNode v a s) := by
+  cases hv2 : v.atomicCallNode with
+  | true => exact recordCallNode_cons v hv1 hv2 a s hp h htask hval hups hsub
+  | false =>
+    have hview := view_of_pend_nil s hp
+    cases hnode : hasNode s.db a.node.call with
+    | true =>
+      have hc := recordValues_congr (v := v) (v' := { v with atomicCallNode := true }) rfl (taskValues a.subtree) s
+      have : recordCallNode v a s = recordCallNode { v with atomicCallNode := true } a s := by
+        unfold recordCallNode
+        simp only [hview, hnode, if_true, hc]
+      rw [this]
+      exact recordCallNode_cons { v with atomicCallNode := true } hv1 rfl a s hp h htask hval hups hsub
+    | false =>
+      unfold recordCallNode
+      simp only [hview, hnode, hv2]
+      simp only [Bool.false_eq_true, if_false]
+      have hview1 : (s.add (.node a.node)).view = applyOp s.db (.node a.node) := by rw [view_add, hview]
+      -- the CallNode and its edges, pending
+      have heq2 : (s.add (.node a.node)).addAll (edgeOps (s.add (.node a.node)).view a.node.call a.children)
+          = s.addAll (RowOp.node a.node :: edgeOps (applyOp s.db (.node a.node)) a.node.call a.children) := by
+        rw [hview1]; simp [Sess.add, Sess.addAll, hp]
+      rw [heq2]
+      have hm0 := mono_applyOps s.view (RowOp.node a.node :: edgeOps (applyOp s.db (.node a.node)) a.node.call a.children)
+      have hnodeT : hasNode (applyOps s.view (RowOp.node a.node :: edgeOps (applyOp s.db (.node a.node)) a.node.call a.children))
+          a.node.call = true := hasNode_of_mem_ops _ _ a.node (by simp)
+      have h2 := addAll_ok s (RowOp.node a.node :: edgeOps (applyOp s.db (.node a.node)) a.node.call a.children) h
+        (pendOK_nil s hp)
+        (by
+          intro op hop
+          simp only [List.mem_cons] at hop
+          rcases hop with hop | hop
+          · subst hop
+            simp only [refsOk, Bool.and_eq_true]
+            rw [hview] at hm0 ⊢
+            exact ⟨hm0.tasks _ htask, hm0.values _ hval⟩
+          · obtain ⟨e, he, hpar, hch⟩ := mem_edgeOps hop
+            subst he
+            simp only [refsOk, Bool.and_eq_true]
+            refine ⟨by rw [hpar]; exact hnodeT, ?_⟩
+            rw [hview, applyOps_cons]
+            exact (mono_applyOps _ _).nodes _ hch)
+        (by
+          intro r hr
+          simp only [List.mem_cons] at hr
+          rcases hr with hr | hr
+          · cases hr
+          · obtain ⟨e, he, _⟩ := mem_edgeOps hr; cases he)
+      generalize hs2 : s.addAll (RowOp.node a.node :: edgeOps (applyOp s.db (.node a.node)) a.node.call a.children) = s2 at *
+      have hv2' : s2.view = applyOps s.view (RowOp.node a.node :: edgeOps (applyOp s.db (.node a.node)) a.node.call a.children) := by
+        rw [← hs2, view_addAll]
+      have hm2 : Mono s.db s2.view := by rw [hv2', hview]; rw [hview] at hm0; exact hm0
+      -- the arguments (nested record_value commits) and the first commit
+      have h3 := recordArgs_consp v hv1 a.node.call a.args s2 h2.1 h2.2.1 (by rw [hv2']; exact hnodeT)
+        (fun x hx u hu => hm2.nodes _ (hups x hx u hu))
+      generalize recordArgs v a.node.call a.args s2 = s3 at *
+      have h4 := commit_cons s3 h3.1.1 h3.1.2.1
+      have hm4 : Mono s2.view s3.commit.view := by rw [view_commit]; exact h3.2
+      -- optional task values
+      have h5 : ∀ s5 : Sess, s5 = (if (a.children.any fun ch => !hasNode s3.commit.view ch) = true then
+            recordValues v (taskValues a.subtree) s3.commit else s3.commit) →
+          OpOKp s3.commit s5 ∧ Mono s2.view s5.view := by
+        intro s5 hs5
+        split at hs5
+        · subst hs5
+          exact ⟨recordValues_consp v hv1 _ _ h4.1 h4.2.1, hm4.trans (recordValues_monoDb v hv1 _ _)⟩
+        · subst hs5; exact ⟨OpOKp.refl _ h4.1 h4.2.1, hm4⟩
+      generalize (if (a.children.any fun ch => !hasNode s3.commit.view ch) = true then
+            recordValues v (taskValues a.subtree) s3.commit else s3.commit) = s5 at *
+      obtain ⟨h5ok, hm25⟩ := h5 s5 rfl
+      have hm5 : Mono s.db s5.view := hm2.trans hm25
+      -- the subtree rows and the second commit
+      have h6 := addAll_ok s5 (subOps a.node.call a.subtree) h5ok.1 h5ok.2.1
+        (by
+          intro op hop
+          simp only [subOps, List.mem_map] at hop
+          obtain ⟨t, ht, rfl⟩ := hop
+          simp only [refsOk, Bool.and_eq_true]
+          have hmT := mono_applyOps s5.view (List.map (fun t => RowOp.sub ⟨a.node.call, t⟩) a.subtree)
+          -- the node became visible when it was added and stays visible
+          exact ⟨hmT.nodes _ (hm25.nodes _ (by rw [hv2']; exact hnodeT)), hmT.tasks _ (hm5.tasks _ (hsub t ht))⟩)
+        (by
+          intro r hr
+          simp only [subOps, List.mem_map] at hr
+          obtain ⟨t, _, he⟩ := hr; cases he)
+      have h7 := commit_cons _ h6.1 h6.2.1
+      have hall := (((h2.trans h3.1).trans h4).trans h5ok).trans (h6.trans h7)
+      exact ⟨pend_commit _, hall.1, hall.2.2⟩
 end RedunModel.Db
